@@ -140,6 +140,11 @@ func genDocs(r *lib.Run, rng *lib.Rand) {
 			c = badCfgs[rng.Intn(len(badCfgs))]
 		}
 		capTok := caps[rng.Intn(len(caps))]
+		if rng.Chance(1) {
+			r.Do("new", c.tok(), capTok, "nofile")
+			r.Stat("class.new.no-filename", 1)
+			continue
+		}
 		if rng.Chance(3) {
 			r.Do("new", c.tok(), capTok, "err")
 			r.Stat("class.new.missing-file", 1)
